@@ -23,6 +23,7 @@ type e1Case struct {
 	Zero  string            // Go expression of (*T)(nil)
 	Tags  map[string]string
 	Group string // cases sharing a non-empty group+AssignKey must not share a package
+	Suspect bool // expected to fail generation/compilation (listed finding): isolated in a package of its own
 	Key   string // for cases without Ty: cases with equal keys must not share a package
 }
 
@@ -72,22 +73,37 @@ type e1Batch struct {
 func batchCases(cases []*e1Case, size int) []*e1Batch {
 	var batches []*e1Batch
 	keysOf := []map[string]bool{}
+	window := 40
 	for _, c := range cases {
-		k := c.Key
+		if c.Suspect {
+			batches = append(batches, &e1Batch{Name: fmt.Sprintf("b%04d", len(batches)), Cases: []*e1Case{c}})
+			keysOf = append(keysOf, map[string]bool{"\x00full": true})
+			continue
+		}
+		var ks []string
+		if c.Key != "" {
+			ks = strings.Split(c.Key, "\x00")
+		}
 		if c.Ty != nil {
-			k = c.Group + "|" + c.Ty.AssignKey()
+			ks = append(ks, c.Group+"|"+c.Ty.AssignKey())
 		}
 		placed := false
-		for bi := len(batches) - 1; bi >= 0 && bi >= len(batches)-3; bi-- {
+		for bi := len(batches) - 1; bi >= 0 && bi >= len(batches)-window; bi-- {
 			b := batches[bi]
-			if len(b.Cases) >= size {
+			if len(b.Cases) >= size || keysOf[bi]["\x00full"] {
 				continue
 			}
-			if k != "" && keysOf[bi][k] {
+			clash := false
+			for _, k := range ks {
+				if keysOf[bi][k] {
+					clash = true
+				}
+			}
+			if clash {
 				continue
 			}
 			b.Cases = append(b.Cases, c)
-			if k != "" {
+			for _, k := range ks {
 				keysOf[bi][k] = true
 			}
 			placed = true
@@ -97,7 +113,7 @@ func batchCases(cases []*e1Case, size int) []*e1Batch {
 			b := &e1Batch{Name: fmt.Sprintf("b%04d", len(batches)), Cases: []*e1Case{c}}
 			batches = append(batches, b)
 			m := map[string]bool{}
-			if k != "" {
+			for _, k := range ks {
 				m[k] = true
 			}
 			keysOf = append(keysOf, m)
@@ -279,8 +295,14 @@ func runBatchPipeline(b *e1Batch, prop string, env []string, runs int, hooks ...
 			fail("generate", fmt.Sprintf("goderive exit %d\n%s", g.Exit, g.Stderr))
 			return
 		}
-		c := run(dir, 10*time.Minute, nil, "go", "build", "-gcflags=-e", "-o", "h.bin", ".")
+		// type-check the scenario package alone first (no link): cheap bisection steps
+		pc := run(dir, 10*time.Minute, nil, "go", "build", "-gcflags=-e", "./p")
 		res.Builds++
+		if pc.Exit != 0 {
+			fail("compile", pc.Stderr)
+			return
+		}
+		c := run(dir, 10*time.Minute, nil, "go", "build", "-gcflags=-e", "-o", "h.bin", ".")
 		if c.Exit != 0 {
 			if strings.Contains(c.Stderr, "verifrt") && !strings.Contains(c.Stderr, "example.com/v/p") && !strings.Contains(c.Stderr, "p/") {
 				fatalInfra("harness runtime does not build:\n%s", c.Stderr)
